@@ -233,6 +233,8 @@ def _units():
     units.append(("spherical.divergence.telescopes", telescoping_divergence("spherical", None)))
     units.append(("spherical.divergence.kernel[conservative,central]", C01.kernel_unit("spherical", None, "divergence", {"conservative": True, "method": "central", "safe": False})))
     units.append(("lemma.steps_conserve_linear_functionals", lemma_steps_conserve))
+    from . import nine_point
+    units.extend(nine_point.units_C05())
     return units
 
 
@@ -240,6 +242,17 @@ UNITS = _units()
 
 
 def replay(o):
+    cfg = (o.get("info") or {}).get("replay_payload") or {}
+    if "corner" in cfg:
+        from ..runner import native
+
+        res = native("conservation.py", {"seed": 1, "only_corner_points": True, "periodicities": [cfg["periodic"]], "n9": 4})
+        if not res.get("ok"):
+            return {"reproduced": None, "error": res}
+        hit = [f for f in res["failures"] if f["id"] == f"corner_point_{cfg['corner']}"] or res["failures"]
+        if hit:
+            return {"reproduced": True, "native": hit[0]}
+        return {"reproduced": False, "note": "the real corner-point setter matched the extension on 4 random grids"}
     return C01.replay(o)
 
 
@@ -251,7 +264,7 @@ def bounded(tier, seed):
     res = native("conservation.py", {"seed": seed, "n": n, **extra}, timeout=3000)
     if not res.get("ok"):
         raise RuntimeError(f"native driver failed: {res}")
-    return [{"name": "zero_flux_integrals_and_mass_along_simulations", "bound": f"{n} random grids per class (with/without hole, anisotropic), random fields; diffusion and Cahn-Hilliard runs with 3 solvers",
+    return [{"name": "zero_flux_integrals_and_mass_along_simulations", "bound": f"{n} random grids per class (with/without hole, anisotropic), random fields; 9-point Laplacian (corner weights 1/3, 1/2) and its corner-point setter for the 4 periodicity patterns; diffusion and Cahn-Hilliard runs with 3 solvers",
              "cases": res["cases"], "failures": res["failures"]}]
 
 
@@ -259,4 +272,4 @@ TRUSTED = ["pdv/specs/operators.py stencils (tied to the kernels by the (K) obli
 ASSUMPTIONS = ["finite telescoping sums / interchange of finite sums (induction at meta level)",
                "ghost relations of zero-derivative / zero-value / periodic conditions as proved in C02",
                "GridBase.integrate = sum(data * outer product of cell_volume_data) (NumPy sum/outer trusted)", "round-off ('to round-off' in the statement)"]
-NOT_COVERED = ["non-conservative spherical operators (the statement says conservative)", "9-point Laplacian (corner_weight != 0, non-default)", "MaterialConservationTracker itself"]
+NOT_COVERED = ["non-conservative spherical operators (the statement says conservative)", "9-point Laplacian (corner_weight != 0): kernel, corner-point setter and diagonal flux form are proved; corner points next to boundaries with non-zero derivative or value conditions do not conserve anything (not claimed by the statement)", "MaterialConservationTracker itself"]
